@@ -54,18 +54,31 @@ def _nontrivial(op, ans):
     return not op.startswith('reset') and ans != 'bad-op'
 
 
-def _viol(stats):
-    out = []
+def _viol(stats, viol_file=None):
+    """violations from the STATS line plus the side file the harness appends to (and syncs) the
+    moment it finds one, so that a timed-out or crashed run still yields its failing inputs"""
+    out, seen = [], set()
+    def add(v):
+        k = (v.get('key'), v.get('desc'))
+        if k not in seen:
+            seen.add(k)
+            out.append(dict(key=v.get('key'), desc=v.get('desc'), replay=v.get('replay')))
+    if viol_file and os.path.exists(viol_file):
+        for line in open(viol_file, errors='replace'):
+            try:
+                add(json.loads(line))
+            except Exception:
+                pass
     if isinstance(stats, dict):
         for v in stats.get('violations') or []:
-            out.append(dict(key=v.get('key'), desc=v.get('desc'), replay=v.get('replay')))
+            add(v)
     return out
 
 
 def correspond(ctx):
     c = vlib.correspond(ctx, 'c03', 'C03', ['mode=corr'], canon=_canon, timeout=1500, nontrivial=_nontrivial)
     c['name'] = 'state+nodedb'
-    c['violations'] = _viol(c.get('stats'))
+    c['violations'] = _viol(c.get('stats'), os.path.join(ctx.work, 'c03.obs.viol'))
     return [c]
 
 
@@ -91,11 +104,12 @@ def search(ctx, hints):
                 stats = json.loads(line[6:])
             except Exception:
                 pass
-    for p in (ops, obs):
+    found = _viol(stats, obs + '.viol')
+    for p in (ops, obs, obs + '.viol'):
         if os.path.exists(p):
             os.remove(p)
     res = dict(evaluations=(stats.get('c03') or {}).get('prefix_checks', 0), distinct_nontrivial=(stats.get('c03') or {}).get('blocks', 0),
-               violations=_viol(stats), samples=[dict(search_stats=stats.get('c03'))], stats=stats.get('c03'))
+               violations=found, samples=[dict(search_stats=stats.get('c03'))], stats=stats.get('c03'))
     if rc != 0:
         res['error'] = 'search harness exited %d: %s' % (rc, (se or so)[-800:])
     return res
